@@ -1,14 +1,20 @@
 (* C05 - Per-connection order, whole frames and gap-free sequence numbers.  Property theorems only.
-   Stage proved here: the only way the model writes to a connection is Module.send_message (mod_send),
-   which stamps the connection's own counter + 1 into the header it writes, writes the header and then the
-   payload with two consecutive sendall calls and nothing in between (C05_stamp); `out` is append-only
-   under every operation - nothing already written is ever changed or reordered (C05_append_only_step is the
-   step-level form used by the correspondence); acknowledgements are complete zero-payload frames
-   (C05_ack_is_whole_frame).  The stream-level statements (counts are 1,2,..,n on every connection for every
-   history; every stream is a concatenation of whole frames; same relative order on all receivers) are
-   decided against the implementation by the model correspondence and the spec oracle (check_C05). *)
+   For EVERY history (any event list, any fuel, any configuration):
+   - C05_stream_frames: what the manager has written to a connection c is unframe fs ++ tail, where fs is a
+     list of whole frames (header, then its payload, nothing in between), the sequence numbers in fs are
+     exactly 1, 2, ..., length fs, and tail is empty or a single header numbered length fs + 1 on a connection
+     that is dead (closed, or its sendall has started failing: the payload write failed after the header write).
+     Acknowledgements, failure notices, periodic manager messages and forwarded client messages all go through
+     the one counter.
+   - C05_append_only / C05_service_appends: the global write log only grows - everything written while handling
+     later events (or later ready connections of one round) comes after everything written before, on every
+     connection, so each receiver's stream is a projection of ONE total order (same relative order at any two
+     receivers; one sender's messages in the order the manager read them).
+   Step-level facts (C05_stamp, C05_sendall_appends, sizes) are kept.  Declared payload sizes: see
+   C05_failed_notice_sized / C05_ack_is_whole_frame / C05_forward_sized (call-site level) and the
+   correspondence, which compares the byte length of every payload written by the implementation. *)
 From Coq Require Import ZArith List Bool Lia.
-From Mgr Require Import Gen.MgrDefs Model.Manager Proofs.RegInv Proofs.RegTop Proofs.StepInv Proofs.Routing.
+From Mgr Require Import Gen.MgrDefs Model.Manager Proofs.Hoare Proofs.RegInv Proofs.RegTop Proofs.StepInv Proofs.Routing Proofs.C05Inv.
 Import ListNotations.
 Open Scope Z_scope.
 
@@ -82,3 +88,30 @@ Example C05_ex :
   | Crash _ _ => ([], [])
   end = ([1; 2; 3; 4; 5; 6], [1;2; 1;2; 1;2; 1;2; 1;2; 1;2]).
 Proof. vm_compute. reflexivity. Qed.
+
+(* ---- stream-level statements, every history ---- *)
+Theorem C05_stream_frames : forall cfg FUEL es c,
+  exists fs tail, proj c (out (st (run cfg FUEL es))) = unframe fs ++ tail /\
+    map (fun f => h_count (fst f)) fs = seqZ 1 (length fs) /\
+    (tail = [] \/ (exists h, tail = [OHdr h] /\ h_count h = Z.of_nat (length fs) + 1 /\ dead (st (run cfg FUEL es)) c)).
+Proof. exact stream_frames. Qed.
+
+Theorem C05_append_only : forall cfg FUEL es1 es2,
+  exists suf, out (st (run cfg FUEL (es1 ++ es2))) = out (st (run cfg FUEL es1)) ++ suf.
+Proof. exact out_append_only. Qed.
+
+Theorem C05_per_connection_order : forall cfg FUEL es1 es2 c,
+  exists suf, proj c (out (st (run cfg FUEL (es1 ++ es2)))) = proj c (out (st (run cfg FUEL es1))) ++ proj c suf.
+Proof. intros cfg FUEL es1 es2 c. destruct (out_append_only cfg FUEL es1 es2) as [suf H]. exists suf. rewrite H. apply proj_app. Qed.
+
+Theorem C05_service_appends : forall cfg FUEL c ib s,
+  exists suf, out (st (service cfg FUEL c ib s)) = out s ++ suf.
+Proof.
+  intros cfg FUEL c ib s. apply (pres_st (Ext (out s))); [apply Ext_service|]. exists []. rewrite app_nil_r. reflexivity.
+Qed.
+
+(* the shapes used above, spelled out *)
+Example C05_unframe_ex : forall h1 p1 h2 p2, unframe [(h1, p1); (h2, p2)] = [OHdr h1; OPay p1; OHdr h2; OPay p2].
+Proof. reflexivity. Qed.
+Example C05_seqZ_ex : seqZ 1 4 = [1; 2; 3; 4].
+Proof. reflexivity. Qed.
